@@ -105,6 +105,12 @@ type c13PKI struct {
 	// certificate with a path length constraint of zero (it may issue end-entity certificates only:
 	// a path through the intermediate is too long) (chains H, Y)
 	expInter, futInter, nonCAInter, ekuInter, expRoot, ncInter, plRoot *x509.Certificate
+	// leaves WITHOUT a subjectAltName DNS name, issued by `inter` (old-style certificates: the name is
+	// in the Common Name only, which crypto/x509 does not read): for another customer's host, for the
+	// MX host name itself, and one whose subjectAltName holds an IP address only (chains V, U, Z).
+	// None of them identifies the MX host: a name check that is skipped or passes "because there is
+	// no name to compare" lets any customer of the asserted trust anchor in.
+	cnOtherLeaf, cnLeaf, ipLeaf *x509.Certificate
 	// private keys of the certificates a server can present as its own (op `attempt`)
 	keys map[*x509.Certificate]*ecdsa.PrivateKey
 }
@@ -303,6 +309,23 @@ func c13MakePKI(t *testing.T) *c13PKI {
 	p.selfCA = c13Sign(t, self, nil, selfK, nil)
 	p.keys[p.leaf], p.keys[p.expLeaf], p.keys[p.wrongLeaf], p.keys[p.canonLeaf], p.keys[p.selfCA] = leafK, expK, wrongK, canonK, selfK
 	p.keys[p.foreignLeaf] = fleafK
+	noSAN := func(cn string, edit func(c *x509.Certificate)) *x509.Certificate {
+		k := c13Key(t)
+		c := c13Leaf(cn, "", now.Add(-year), now.Add(10*year))
+		c.DNSNames = nil
+		if edit != nil {
+			edit(c)
+		}
+		crt := c13Sign(t, c, p.inter, k, interK)
+		if len(crt.DNSNames) != 0 {
+			t.Fatalf("c13 self-check: leaf %q has subjectAltName DNS names", cn)
+		}
+		p.keys[crt] = k
+		return crt
+	}
+	p.cnOtherLeaf = noSAN("mail.other-customer.test", nil)
+	p.cnLeaf = noSAN(c13MX, nil)
+	p.ipLeaf = noSAN("mail.other-customer.test", func(c *x509.Certificate) { c.IPAddresses = []net.IP{net.IPv4(192, 0, 2, 25)} })
 	return p
 }
 
@@ -332,12 +355,19 @@ type c13Chain struct {
 }
 
 // chain kinds; the first five are the property's, the others widen the space
-var c13ChainKinds = []string{"L", "LI", "LIR", "X", "W", "S", "F", "LR", "C", "G", "J", "M", "P", "Q", "T", "N", "K", "H", "Y", "E"}
+var c13ChainKinds = []string{"L", "LI", "LIR", "X", "W", "S", "F", "LR", "C", "G", "J", "M", "P", "Q", "T", "N", "K", "H", "Y", "V", "U", "Z", "E"}
 
 // the chains whose leaf is good (right name, within its validity period, properly signed) and whose
 // PATH is not: a CA certificate on it is outside its validity period, is no CA certificate, may not
 // be used for server authentication, may not issue for the MX host name, or may not have a CA below it
 var c13BadPathKinds = []string{"P", "Q", "T", "N", "K", "H", "Y"}
+
+// the chains whose leaf has no subjectAltName DNS name (Common Name only, for another host / for the MX
+// host; IP address only) and is properly issued under the intermediate and root that DANE-TA records pin
+var c13NoSANKinds = []string{"V", "U", "Z"}
+
+// the chains the flagship blocks pin with DANE-TA records of the chain's own CA certificates
+var c13HardKinds = append(append([]string{}, c13NoSANKinds...), c13BadPathKinds...)
 
 // the chains that pass ordinary (PKIX) verification for the MX host name at a client trusting both
 // roots
@@ -382,6 +412,14 @@ func c13MakeChains(t *testing.T, p *c13PKI) map[string]*c13Chain {
 		mk("M", f, []*x509.Certificate{p.foreignLeaf, p.inter}, []bool{f, tr}, []bool{f, f}),
 		// no certificate at all (what ConnectionState holds without TLS)
 		mk("E", f, nil, nil, nil),
+	}
+	// properly issued under the pinned CA, no subjectAltName DNS name: not a certificate for the MX host
+	for _, c := range []*c13Chain{
+		mk("V", f, []*x509.Certificate{p.cnOtherLeaf, p.inter, p.root}, []bool{f, tr, tr}, []bool{f, f, f}),
+		mk("U", f, []*x509.Certificate{p.cnLeaf, p.inter, p.root}, []bool{f, tr, tr}, []bool{f, f, f}),
+		mk("Z", f, []*x509.Certificate{p.ipLeaf, p.inter, p.root}, []bool{f, tr, tr}, []bool{f, f, f}),
+	} {
+		cs = append(cs, c)
 	}
 	// a good leaf whose path to the anchors is NOT valid although every signature is: the intermediate
 	// expired (the leaf was issued before that), is not valid yet, is no CA certificate, may not be used
@@ -1085,7 +1123,7 @@ func TestVerifC13Verify(t *testing.T) {
 	// (0) first of all the plainest case of every bad-path chain: `2 1 1` with the SPKI digest of the
 	// chain's root certificate (the grids below contain it again; a violation report quotes the first
 	// of the shortest failing op lines)
-	for _, ck := range c13BadPathKinds {
+	for _, ck := range c13HardKinds {
 		w.verifyCase(out, []c13Rec{{usage: 2, sel: 1, mt: 1, target: 'R', dsel: 1, dmt: 1}}, ck, true, true)
 	}
 	// (1) exhaustive: the stated space for multisets of size 0 and 1, all chains (extras included),
@@ -1112,7 +1150,7 @@ func TestVerifC13Verify(t *testing.T) {
 	// the matched anchor (W, C) among them
 	cnt1b := 0
 	badPath := map[string]bool{}
-	for _, ck := range c13BadPathKinds {
+	for _, ck := range c13HardKinds {
 		badPath[ck] = true
 	}
 	for o := 1; o < len(c13Owners); o++ {
@@ -1170,7 +1208,7 @@ func TestVerifC13Verify(t *testing.T) {
 		}
 	}
 	eeMiss := c13Rec{usage: 3, sel: 1, mt: 1, target: 'N', dsel: 1, dmt: 1}
-	for _, ck := range append([]string{"G", "J", "M", "LIR", "LI", "F", "LR"}, c13BadPathKinds...) {
+	for _, ck := range append([]string{"G", "J", "M", "LIR", "LI", "F", "LR"}, c13HardKinds...) {
 		for _, vc := range []bool{true, false} {
 			if vc && w.chains[ck].verified == nil {
 				continue
@@ -1620,7 +1658,7 @@ func TestVerifC13CheckConn(t *testing.T) {
 	// intermediate, an expired root certificate): every usable DANE-TA form pinning the intermediate or
 	// the root of the chain, alone and next to an unusable and a non-matching DANE-EE record; a DANE-EE
 	// record for the leaf authenticates on every one of them
-	for ci, ck := range c13BadPathKinds {
+	for ci, ck := range c13HardKinds {
 		for _, s := range []uint8{0, 1} {
 			for _, m := range []uint8{0, 1, 2} {
 				for ti, tg := range []byte{'I', 'R'} {
@@ -2865,7 +2903,7 @@ func TestVerifC13Conn(t *testing.T) {
 	}
 	// a good leaf on a path that is not valid (c13BadPathKinds): the published DANE-TA record pins the
 	// intermediate / the root of the presented chain
-	for ci, ck := range c13BadPathKinds {
+	for ci, ck := range c13HardKinds {
 		for fi, f := range [][2]uint8{{1, 1}, {0, 1}, {0, 0}, {1, 2}} {
 			for ti, tg := range []byte{'I', 'R'} {
 				z := pinned
@@ -4391,7 +4429,7 @@ func TestVerifC13Attempt(t *testing.T) {
 	// root (2, 3) of the presented chain, and one more DANE-TA form for each; the client trusts no CA / the
 	// roots / the system store (block (1) has the full record-set grid with no CA trusted); first handshake
 	// broken; another spelling of the host name
-	for ci, ck := range c13BadPathKinds {
+	for ci, ck := range c13HardKinds {
 		for _, pool := range []byte{'t', 's'} {
 			for _, i := range []int{1, 2, 3, 10} {
 				run(c13Att{zone: zoneOf(sets[i]...), ck: ck, modes: "TTT", pool: pool, base: 'd', hr: true})
